@@ -2,6 +2,9 @@
 
 use crate::checker::{Checker, Expectation, Path};
 use crate::{fingerprint, CheckerBuilder, CheckerVisitor, Fingerprint, Model, Property};
+#[cfg(getong_stateright_verif)]
+use crate::verif::dash::DashMap;
+#[cfg(not(getong_stateright_verif))]
 use dashmap::DashMap;
 use rand::rngs::StdRng;
 use rand::Rng;
